@@ -16,12 +16,14 @@ Decided (label, scope and stack-pointer discipline of the code generator; struct
         SaveSP is emitted only in compile_function_like for functions with a return type, and every
         emitted Return is preceded by RestoreSP.
  R4 K1  `let` emits Def after compiling its expression.
+ R5 K1  VM entries start clean: RunState::setup_function empties call_state and scope and sets the
+        pc on every path to Ok, and every RunState method that calls run() goes through it first.
 Not decided: type mismatches, undefined variables and stack underflow for arbitrary accepted
 programs (needs the soundness of the type checker in lower.rs; value-level)."""
 from rules.core import emit, pat
 from rules.core.facts import Operand
 
-CRATES = ["aranya_policy_compiler", "aranya_policy_ast", "aranya_policy_module"]
+CRATES = ["aranya_policy_compiler", "aranya_policy_ast", "aranya_policy_module", "aranya_policy_vm"]
 CS = "aranya_policy_compiler::compile::CompileState::"
 
 LABEL_ALIAS = {"arm_label": {"arm_start"}}   # pushed into arm_labels, later zipped back as arm_start
@@ -233,3 +235,60 @@ def run(F, rep, tier):
         d = [e for e in evs if e.kind == "emit" and e.variant == "Def"] + [c for c in cts.calls if c.bb in reg and c.name == "append_var"]
         ok = len(comp) == 1 and len(d) >= 1 and all(cts.dominates(comp[0].bb, x.bb) for x in d)
     rep.check(ok, "let|def-after-expression", "K9 emission template", "`let x = e` compiles e and then defines x", site=cts.site())
+    vm_entry_rules(F, rep)
+
+
+def must_pass_calls(f, pred):
+    """every normal path from entry to a successful return passes a call satisfying pred"""
+    hits = [c.bb for c in f.calls if pred(c)]
+    if not hits:
+        return False
+    rets = ok_return_blocks(f)
+    return emit.must_pass(f, 0, hits, rets, emit.err_edges(f)) if 0 not in hits else True
+
+
+def vm_entry_rules(F, rep):
+    """R5: every VM entry starts from an empty call stack and scope."""
+    RS = "aranya_policy_vm::machine::RunState::"
+    fns = {f.name: f for f in F.fns if f.path.startswith(RS) and f.kind != "Closure" and f.path.count("::") == RS.count("::")}
+    if "setup_function" not in fns or "run" not in fns:
+        rep.anchor_missing("RunState::setup_function / RunState::run")
+        return
+
+    def clears(f, field, depth=0):
+        def pred(c):
+            if c.name == "clear" and "field:%s" % field in f.origins(c.args[0], through_calls=()):
+                return True
+            g = fns.get(c.name) if c.path and c.path.startswith(RS) else None
+            return g is not None and g is not f and depth < 3 and clears(g, field, depth + 1)
+        return must_pass_calls(f, pred)
+
+    sf = fns["setup_function"]
+    for field, why in (("call_state", "stale return addresses / saved stack depths from an interrupted run would be popped by the next run's outermost Return"),
+                       ("scope", "variables of an interrupted run would still be defined")):
+        rep.check(clears(sf, field), "vm-entry|setup_function-clears-%s" % field, "K1 must-pass-through",
+                  "setup_function empties `%s` on every path to Ok (directly or through a callee that always does)" % field,
+                  "RunState::setup_function does not empty `%s` on every path: %s" % (field, why), sf.site())
+    rep.check(must_pass_calls(sf, lambda c: c.name == "set_pc_by_label"), "vm-entry|setup_function-sets-pc", "K1 must-pass-through",
+              "setup_function positions the pc at the entry label", site=sf.site())
+
+    def establishes(f, depth=0):
+        if f is sf:
+            return True
+        def pred(c):
+            g = fns.get(c.name) if c.path and c.path.startswith(RS) else None
+            return g is not None and g is not f and depth < 3 and establishes(g, depth + 1)
+        return must_pass_calls(f, pred)
+
+    n = 0
+    for name, f in sorted(fns.items()):
+        runs = [c for c in f.calls if c.name == "run" and c.path and c.path.startswith(RS)]
+        if not runs or name == "run":
+            continue
+        n += 1
+        setups = [c for c in f.calls if c.path and c.path.startswith(RS) and fns.get(c.name) is not None and fns[c.name] is not f and establishes(fns[c.name])]
+        ok = bool(setups) and all(any(f.dominates(s.bb, r.bb) for s in setups) for r in runs)
+        rep.check(ok, "vm-entry|%s-sets-up-before-run" % name, "K1 must-pass-through",
+                  "%s reaches run() only after setup_function (possibly via setup_action)" % name,
+                  "RunState::%s can call run() without going through setup_function" % name, f.site())
+    rep.floor("VM entry points that call run()", n, 4)
